@@ -368,6 +368,27 @@ fn main() {
         }
         run.count("late-epoch-prune-phase-asks");
     }
+    // ---- 7. epochs far apart (2^32, 2^16 apart) must not repeat the whole schedule
+    {
+        for shift in [1usize << 32, 1usize << 16, 1usize << 31] {
+            let ea: Vec<usize> = (0..200).collect();
+            let eb: Vec<usize> = ea.iter().map(|e| e + shift).collect();
+            let (k, weights, xa) = root_scenario(&ea, false);
+            let (_, _, xb) = root_scenario(&eb, false);
+            let wbits = weights.iter().map(|w| w.to_bits().to_string()).collect::<Vec<_>>().join(" ");
+            for (e, ans) in eb.iter().zip(xb.iter()).take(50) {
+                run.line(&format!("one {} {} {}", e, k, wbits), &ans.map(|i| i.to_string()).unwrap_or("panic".into()));
+            }
+            run.evaluations += 400;
+            run.spec_checked += 1;
+            let same = xa.iter().zip(xb.iter()).filter(|(x, y)| x == y).count();
+            run.count(&format!("epoch-shift-{shift}-repeats={same}/200"));
+            if same == 200 {
+                run.fail("draws-repeat-across-epochs", &format!("root bucket {k}, weights [{wbits}], epochs 0..200 vs the same + {shift}"),
+                    "independent draws (about sum p_i^2 of them equal)", "all 200 choices identical: the schedule repeats with this period");
+            }
+        }
+    }
     // ---- 4. Layer::init twice / threads / rayon pools
     let npoints = if a.thorough() { 400 } else { 180 };
     for rep in 0..(if a.thorough() { 6 } else { 2 }) {
